@@ -247,6 +247,8 @@ def document(input_file: str, settings: Settings):
                     if filename.endswith(".cmake"):
                         break
                 else:
+                    if not recursive:
+                        break
                     continue
 
             # Sort filenames and subdirs in alphabetical order
